@@ -77,8 +77,9 @@ def main():
         if ok:
             dst = os.path.join(VERIF, "seeded", a.name or sid)
             os.makedirs(dst, exist_ok=True)
-            shutil.copy(patch, os.path.join(dst, "patch.diff"))
-            shutil.copy(demo, os.path.join(dst, "demo.py"))
+            for srcf, name in ((patch, "patch.diff"), (demo, "demo.py")):
+                if os.path.abspath(srcf) != os.path.abspath(os.path.join(dst, name)):      # selftest re-runs a filed seed in place
+                    shutil.copy(srcf, os.path.join(dst, name))
             m = {"property": prop, "summary": meta.get("summary"), "needs": meta.get("needs"), "files": meta.get("files"),
                  "origin": "independent sub-agent given only the property text and a scratch worktree",
                  "confirmed_on_repo_head": log["repo_head"], "what_was_run": {
